@@ -102,7 +102,20 @@ ArrMachine(which) ==
             <<TransArm("Len", <<PCons("h", "r"), PV("k")>>, Target("Len", <<EVar("r"), Add(EVar("k"), L(1))>>)),
               TransArm("Len", <<PNil, PL(2)>>, Done(L(222))),
               TransArm("Len", <<PNil, PV("k")>>, Done(EVar("k")))>>, <<Decl("Len", <<"[u64]", "u64">>)>>)
-ArrNames == {"sum", "sumrev", "ends", "max", "len"}
+    [] which = "swap" ->      \* the state is re-entered with its ends exchanged: the SUFFIX variable must be rebound every time
+         mk("Swap", 2, Target("S", <<XS, L(3)>>),
+            <<GuardArm("S", <<PEnds("a", "b"), PV("k")>>,
+                       <<GTrans(Gt(EVar("k"), 0), Target("S", <<EBin("cat", EVar("b"), EVar("a")), Sub(EVar("k"), L(1))>>)),
+                         GTrans(Eq(EVar("k"), 0), Done(Add(EVar("b"), EVar("b"))))>>)>>, <<Decl("S", <<"[u64]", "u64">>)>>)
+    [] which = "twolast" ->   \* two different states both call their last element y
+         mk("TwoLast", 1, Target("P", <<XS>>),
+            <<TransArm("P", <<PEnds("x", "y")>>, Target("Q", <<EBin("cat", EVar("y"), EVar("x"))>>)),
+              TransArm("Q", <<PEnds("p", "y")>>, Done(Add(EVar("y"), L(100))))>>, <<Decl("P", <<"[u64]">>), Decl("Q", <<"[u64]">>)>>)
+    [] which = "argname" ->   \* the machine's input has the name of the suffix variable (the pattern variable shadows it)
+         [name |-> "ArgName", inputs |-> <<"xs", "y">>, inkinds |-> <<"[u64]", "u64">>, outkind |-> "u64",
+          declared |-> <<Decl("P", <<"[u64]">>), DoneDecl>>, start |-> Target("P", <<XS>>),
+          arms |-> <<TransArm("P", <<PEnds("x", "y")>>, Done(Add(EVar("y"), EVar("x")))), DoneArm>>]
+ArrNames == {"sum", "sumrev", "ends", "max", "len", "swap", "twolast", "argname"}
 ArrInputs == <<<<AV(<<3>>)>>, <<AV(<<1, 2>>)>>, <<AV(<<2, 1>>)>>, <<AV(<<1, 2, 3>>)>>, <<AV(<<3, 1, 2>>)>>, <<AV(<<2, 2, 1, 4>>)>>>>
 
 (* literal payload patterns: arms of one state told apart by a literal, in both orders *)
@@ -240,7 +253,9 @@ Done2 == cs.stage = 2
 MachineOf(k) == CASE k.fam = "gen" -> GenMachine(k.g) [] k.fam = "arr" -> ArrMachine(k.which)
                   [] k.fam = "lit" -> LitMachine(k.which) [] k.fam = "ill" -> IllMachine(k.which)
                   [] k.fam = "repo" -> RepoMachine(k.which) [] k.fam = "scope" -> ScopeMachine(k.which)
-InputsOf(k) == CASE k.fam = "gen" -> GenInputs(k.g.nf) [] k.fam = "arr" -> ArrInputs
+InputsOf(k) == CASE k.fam = "gen" -> GenInputs(k.g.nf)
+                 [] k.fam = "arr" /\ k.which = "argname" -> [i \in 1..Len(ArrInputs) |-> ArrInputs[i] \o <<NV(7)>>]
+                 [] k.fam = "arr" -> ArrInputs
                  [] k.fam = "lit" -> [i \in 1..8 |-> <<NV((i - 1) % 4), NV(5 * ((i - 1) \div 4))>>] [] k.fam = "ill" -> IllInputs
                  [] k.fam = "repo" -> RepoInputs(k.which)
                  [] k.fam = "scope" -> [i \in 1..12 |-> <<NV((i - 1) % 4), NV(<<0, 2, 3>>[((i - 1) \div 4) + 1])>>]
